@@ -146,7 +146,7 @@ theorem dra_execCmd {p : Pid} {w : World} (h : DeadRecA p w) (c : Cmd)
       · rename_i hz
         apply dra_block
         have ha := dra_addAwait h (.proc z)
-        refine ⟨dr_modProc_alive ha.1 z _ (by simpa using hz) (fun _ => rfl), ?_⟩
+        refine ⟨dr_modProc_waiters ha.1 z _ (by simpa using hz) (fun _ => ⟨rfl, rfl, rfl⟩), ?_⟩
         simpa using ha.2
   all_goals simp only [execCmd]
   all_goals dra_peel2 h 30
@@ -165,7 +165,7 @@ theorem dr_execCmd {w : World} (h : DeadRec w) (p : Pid) (hrun : (w.proc p).stat
   · by_cases h2 : ∃ v, c = .exit v
     · obtain ⟨v, rfl⟩ := h2
       exact dr_finishProc h p v false
-    · exact (dra_execCmd ⟨h, running_ne_finished hrun⟩ c (fun z v e => h1 ⟨z, v, e⟩) (fun v e => h2 ⟨v, e⟩)).1
+    · exact (dra_execCmd ⟨h, hrun⟩ c (fun z v e => h1 ⟨z, v, e⟩) (fun v e => h2 ⟨v, e⟩)).1
 
 /-- a command that does not end the caller leaves it running -/
 theorem execCmd_running (w : World) (p : Pid) (hrun : (w.proc p).status = .running) (c : Cmd)
@@ -248,7 +248,7 @@ theorem dr_resumeProc {w : World} (h : DeadRec w) (p : Pid) (sig : Int) : DeadRe
     · rename_i f hf
       have h1 : DeadRecA p (w.modProc p fun y => { y with blocked := none }) :=
         ⟨dr_modProc_shrink h p _ ⟨rfl, fun e => e, fun e => e, fun e => e, fun _ => rfl⟩,
-         by simpa using running_ne_finished hrun⟩
+         by simpa using hrun⟩
       have hs1 : ((w.modProc p fun y => { y with blocked := none }).proc p).status = .running := by
         simpa using hrun
       have h2 := dra_resumeFrame h1 f sig
@@ -264,11 +264,11 @@ theorem dr_resumeProc {w : World} (h : DeadRec w) (p : Pid) (sig : Int) : DeadRe
       all_goals (rename_i w2 heq; rw [heq] at h2; exact h2.1)
 
 theorem dr_modProc_to_alive {w : World} (h : DeadRec w) (z : Pid) (g : Proc → Proc)
-    (hg : ∀ x, (g x).status ≠ .finished) : DeadRec (w.modProc z g) := by
+    (hg : ∀ x, (g x).status = .running) : DeadRec (w.modProc z g) := by
   intro p hp
   rw [proc_modProc] at hp ⊢
   split at hp
-  · exact absurd hp (hg _)
+  · exact absurd (hg _) hp
   · rename_i c; rw [if_neg c]; exact h p hp
 
 /-- **every dispatched event keeps `DeadRec`** -/
@@ -286,7 +286,7 @@ theorem dr_dispatch {w w' : World} (h : DeadRec w) (hd : dispatch w = some w') :
     split
     · split
       · exact h0.of_procs (by simp)
-      · refine dr_runScript _ (dr_modProc_to_alive h0 _ _ (fun x => by simp)) _ ?_
+      · refine dr_runScript _ (dr_modProc_to_alive h0 _ _ (fun x => rfl)) _ ?_
         intro hlt
         rw [proc_modProc_self _ _ _ (by simpa using hlt)]
     · split
